@@ -22,7 +22,7 @@ import (
 func init() {
 	core.Register(&core.Simple{
 		Id: "C19", Lvl: "exploration", Quick: 40, Thorough: 1000, PerBatch: 10, Width: 3, Race: true, Timeout: 1500,
-		RuleText: "each case runs the real FlatNews, Agreement, handlers and processOutbox in a race-detector build: 2-8 posters, 2-8 readers and 2-6 clients that keep logging in run concurrently (in every second case together with a loop reloading the board file, as SIGHUP does) against a board of 0-60 KiB and an agreement of 0-60 KiB; every post body carries a unique id; call and return of every operation are stamped from one logical clock at the client boundary. Oracles: the final board must be a newest-first sequence of all acknowledged posts in the protocol's post format followed by the initial text; every read must be a post-boundary suffix of that final text containing every post acknowledged before the read was issued and none issued after it returned; porcupine checks the same history against a sequential model (post prepends, read returns the state); every agreement delivery equals the agreement; every connected user receives each post announcement exactly once; MessageBoard.txt equals the final board. distinct = (posters, readers, board size class, number of reads that overlapped a post); non-trivial = at least one read overlapped a post or another read",
+		RuleText: "each case runs the real FlatNews, Agreement, handlers and processOutbox in a race-detector build: 2-8 posters, 2-8 readers and 2-6 clients that keep logging in run concurrently (in every second case together with a loop reloading the board file, as SIGHUP does) against a board of 0-60 KiB and an agreement of 0-60 KiB; every post body carries a unique id; call and return of every operation are stamped from one logical clock at the client boundary. Oracles: the final board must be a newest-first sequence of all acknowledged posts in the protocol's post format followed by the initial text; every read must be a post-boundary suffix of that final text containing every post acknowledged before the read was issued and none issued after it returned; porcupine checks the same history against a sequential model (post prepends, read returns the state); every agreement delivery equals the agreement (in a quarter of the cases the agreement is afterwards replaced by a shorter one and reloaded, and the next logins must be shown exactly that); every connected user receives each post announcement exactly once; MessageBoard.txt equals the final board. distinct = (posters, readers, board size class, number of reads that overlapped a post); non-trivial = at least one read overlapped a post or another read",
 		Case:     runCase,
 	})
 }
@@ -339,6 +339,39 @@ func runCase(c *core.Case) {
 			nAgree++
 			if o.out != agreement {
 				c.Fail("C19/agreement-not-whole", "a client being shown the agreement at login received %d bytes, the agreement has %d (prefix: %v); %d clients were logging in concurrently", len(o.out), len(agreement), strings.HasPrefix(agreement, o.out), nLogin)
+				return
+			}
+		}
+	}
+	// ---- the operator replaces the agreement by a shorter one and reloads it (no login in flight) ----
+	if ag, ok := srv.S.Agreement.(*verifshim.Agreement); ok && c.Index%4 == 3 && len(agreement) > 100 {
+		short := agreement[:len(agreement)/3]
+		os.WriteFile(filepath.Join(srv.ConfigDir, "Agreement.txt"), []byte(short), 0644)
+		done := make(chan error, 1)
+		go func() { done <- ag.Reload() }()
+		select {
+		case <-done:
+		case <-time.After(20 * time.Second):
+			c.Fail("C19/agreement-reload-wedged", "reloading a shorter agreement (%d -> %d bytes) after %d logins had been shown the old one did not return within 20 s", len(agreement), len(short), nAgree)
+			return
+		}
+		c.Count("agreement_reloads", 1)
+		for k := 0; k < 2; k++ {
+			cl, err := refclient.LoginAs(srv, fmt.Sprintf("10.19.4.%d:1", k+1), "agree", "", "")
+			if err != nil {
+				c.Fail("C19/agreement-after-reload", "login after the agreement was reloaded failed: %v", err)
+				return
+			}
+			cl.Call(500)
+			got, seen := "", false
+			for _, t := range cl.Inbox() {
+				if t.Type == 109 {
+					d, _ := t.Get(101)
+					got, seen = string(d), true
+				}
+			}
+			if !seen || got != short {
+				c.Fail("C19/agreement-after-reload", "after the agreement was replaced by a shorter one and reloaded, a client logging in was shown %d bytes (delivered: %v), the agreement now has %d", len(got), seen, len(short))
 				return
 			}
 		}
